@@ -29,6 +29,10 @@ import rustscan
 from rustscan import lex, sig, match_close, Tok
 
 
+import threading
+_tls = threading.local()
+
+
 class Undecided(Exception):
     """lost anchor / unsupported shape: the check must exit 2, never 1"""
 
@@ -447,6 +451,24 @@ def process_fn(src: str, src_file: str, it: rustscan.Item, dirs: List[Directive]
                                   'await%d:%s:%d' % (w + 1, info.fn, d.line)))
                 info.n_asserts += 1
                 info.clauses.append(('await-invariant', 'await-point %d: %s' % (w + 1, expr)))
+    for d in dirs:
+        if d.kind == 'await-try' and not getattr(_tls, 'no_await_try', False):
+            w = int(d.arg) - 1
+            expr = ' '.join(x.strip() for x in d.payload)
+            if w >= len(await_tok_idx):
+                raise Undecided('lost anchor: await %d of %s' % (w + 1, info.fn))
+            ai = await_tok_idx[w]
+            si = stmt_start(st, ai, body_open_i + 1)
+            guard = 0
+            while si > body_open_i + 1 and st[si - 1].text == '>' and st[si - 2].text == '=':
+                si = stmt_start(st, si - 2, body_open_i + 1); guard += 1
+                if guard > 8:
+                    raise Undecided('await placement')
+            pos = st[si].start
+            edits.append(Edit(pos, pos, 'proof { assert(%s); } // await-point %d (if the place is not borrowed here)\n' % (expr, w + 1),
+                              'awaittry%d:%s:%d' % (w + 1, info.fn, d.line)))
+            info.n_asserts += 1
+            info.clauses.append(('await-invariant', 'await-point %d (when accessible): %s' % (w + 1, expr)))
     # --- hints
     for d in dirs:
         if d.kind in ('hint', 'hint?'):
